@@ -19,7 +19,7 @@ def shape_class(nodes):
 def run_plain(world, case, cfg=None, ctx=None, layout=0, rename_frags=False, reverse_defs=False, initial=None, rename_vars=False):
     """execute the case's request without gates; returns (response, CaseState, DocText)"""
     eng = world.engine(cfg)
-    nodes, vmap = (render.rename_variables(case["nodes"]) if rename_vars else (case["nodes"], {}))
+    nodes, vmap = (render.rename_variables(case["nodes"], shared=(rename_vars == "shared")) if rename_vars else (case["nodes"], {}))
     doc = render.DocText(nodes, layout=layout, rename_frags=rename_frags, reverse_defs=reverse_defs)
     cs = CaseState(table_of(case["calls"]))
     world.case = cs
